@@ -738,10 +738,14 @@ func (e *vfEntry) UnmarshalJSON(b []byte) error {
 
 func (cl vfCall) config(dir string) *Config {
 	fn := cl.File
-	if fn == "" {
+	if fn == "" && !cl.standalone() {
 		fn = "f"
 	}
-	opts := []func(*Config){Dir(dir), Filename(fn)}
+	opts := []func(*Config){Dir(dir)}
+	if fn != "" {
+		// standalone calls keep the default name (test name with / replaced by _)
+		opts = append(opts, Filename(fn))
+	}
 	switch cl.Upd {
 	case "true":
 		opts = append(opts, Update(true))
